@@ -938,6 +938,10 @@ class SMTPClient(basic.LineReceiver, policies.TimeoutMixin):
     # None, perform no timeout checking.
     timeout = None
 
+    # Whether the next byte of message data handed to transformChunk starts
+    # a line (for dot-stuffing across chunk boundaries).
+    _dataLineStart = True
+
     def __init__(self, identity, logsize=10):
         if isinstance(identity, str):
             identity = identity.encode("ascii")
@@ -1075,6 +1079,7 @@ class SMTPClient(basic.LineReceiver, policies.TimeoutMixin):
             self.sendLine(b"RCPT TO:" + quoteaddr(self.lastAddress))
 
     def smtpState_data(self, code, resp):
+        self._dataLineStart = True
         s = basic.FileSender()
         d = s.beginFileTransfer(self.getMailData(), self.transport, self.transformChunk)
 
@@ -1109,7 +1114,14 @@ class SMTPClient(basic.LineReceiver, policies.TimeoutMixin):
         being made sending the message body, the client will not time out.
         """
         self.resetTimeout()
-        return chunk.replace(b"\n", b"\r\n").replace(b"\r\n.", b"\r\n..")
+        chunk = chunk.replace(b"\n", b"\r\n").replace(b"\r\n.", b"\r\n..")
+        if self._dataLineStart and chunk[:1] == b".":
+            # A period at the very start of the message, or right after a
+            # chunk which ended with a newline, starts a line too.
+            chunk = b"." + chunk
+        if chunk:
+            self._dataLineStart = chunk[-1:] == b"\n"
+        return chunk
 
     def finishedFileTransfer(self, lastsent):
         if lastsent != b"\n":
